@@ -225,7 +225,7 @@ def gen_heap_knobs(rng):
     }
 
 
-def gen_k_plan(run_seed: int, hashseed: int = 0, catalogue=None):
+def gen_k_plan(run_seed: int, hashseed: int = 0, catalogue=None, p_backend_c: float = 0.0):
     import random
 
     rng = random.Random(run_seed)
@@ -262,7 +262,7 @@ def gen_k_plan(run_seed: int, hashseed: int = 0, catalogue=None):
         "classes": prob["classes"],
         "inputs": inputs,
         "revalues": revalues,
-        "backend_c": rng.random() < 0.0,
+        "backend_c": rng.random() < p_backend_c,
     }
 
 
